@@ -261,6 +261,9 @@ def inline_macros(prog: list, const_names: set[str] | None = None) -> tuple[list
                             raise NoTwin("deferred argument used where a value is needed early")
                         stats["deferred_bindings"] += 1
                         binds.append({"k": "sym", "n": ren[p], "e": a})
+                # an included file inside the body is text of the body: every written-out copy gets a file of its own
+                fresh[0] += 1
+                body = _own_include_files(body, f"_i{fresh[0]}")
                 out.append({"k": "block", "b": binds + body})
             elif k in ("block", "scope", "include"):
                 out.append(dict(st, b=go(st["b"], consts, depth + 1)))
@@ -273,6 +276,16 @@ def inline_macros(prog: list, const_names: set[str] | None = None) -> tuple[list
         return out
 
     return go(prog, set(const_names or ()), 0), stats
+
+
+def _own_include_files(stmts: list, tag: str) -> list:
+    out = []
+    for st in stmts:
+        if st["k"] == "include":
+            base, dot, ext = st["f"].rpartition(".")
+            st = dict(st, f=f"{base}{tag}{dot}{ext}" if dot else st["f"] + tag)
+        out.append(map_children(st, lambda sub: _own_include_files(sub, tag)))
+    return out
 
 
 def _all_expr_names(stmts: list) -> set[str]:
